@@ -236,7 +236,13 @@ func (r *Reconciler) applyStrategy(logger logr.Logger, daemonset *datadoghqv1alp
 	var strategyResult *strategy.Result
 	var err error
 	logger.V(1).Info("DaemonsetStatus: ", "status", daemonset.Status)
-	switch strategy.ReplicaSetStatus(strategyParams.ReplicaSetStatus) {
+	rsStatus := strategy.ReplicaSetStatus(strategyParams.ReplicaSetStatus)
+	if rsStatus == strategy.ReplicaSetStatusCanary && daemonset.Spec.Strategy.Canary == nil {
+		// the canary strategy was removed while this replica set was the canary: there is no canary to evaluate
+		// any more (and no canary settings to evaluate it with) until the ExtendedDaemonSet status is updated
+		rsStatus = strategy.ReplicaSetStatusUnknown
+	}
+	switch rsStatus {
 	case strategy.ReplicaSetStatusActive:
 		logger.Info("manage deployment")
 		conditions.UpdateExtendedDaemonSetReplicaSetStatusCondition(strategyParams.NewStatus, now, datadoghqv1alpha1.ConditionTypeCanary, corev1.ConditionFalse, "", "", false, false)
